@@ -572,6 +572,21 @@ func (c *Ctx) rulePartialAPI() {
 						}
 					}
 				}
+				// otherwise: linear arithmetic over the index computation and the dominating conditions, with the
+				// accessor of the (immutable) library object as a pure function of its receiver
+				if !okI {
+					var lenCall *ssa.Call
+					allInstrs(fn, func(_ *ssa.BasicBlock, i2 ssa.Instruction) {
+						if lc2, ok := i2.(*ssa.Call); ok && lenCall == nil && P.CallTo(lc2, lenName) != nil && P.Desc(lc2.Call.Args[0]) == recvD {
+							lenCall = lc2
+						}
+					})
+					if lenCall != nil {
+						lc := c.newLin(b)
+						ix, ln := lc.of(call.Call.Args[1]), lc.of(lenCall)
+						okI = lc.prove(ix) && lc.prove(geq(ln.add(linConst(1), -1), ix))
+					}
+				}
 				// index starts at 0 and only grows: phi[0, i+1]
 				c.check(okI, "PARTIAL-API", cons, where, "index < "+lenName+"() of the same object", name+" with an index not bounded by "+lenName+"() of the same object: panic")
 			}
@@ -1090,7 +1105,6 @@ func isFuncObjectType(P *Program, v ssa.Value) bool {
 // same receiver, of a product method that stores make(...) into F whenever its own "initialised" flag is false
 // and sets that flag (lazy initialisation helper called first).
 func (c *Ctx) mapMadeByInitMethod(mu *ssa.MapUpdate) bool {
-	P := c.P
 	u, ok := mu.Map.(*ssa.UnOp)
 	if !ok {
 		return false
@@ -1099,15 +1113,57 @@ func (c *Ctx) mapMadeByInitMethod(mu *ssa.MapUpdate) bool {
 	if !ok {
 		return false
 	}
+	if c.mapInitBefore(mu.Parent(), mu, fa.X, fa) {
+		return true
+	}
+	// the update sits in an unexported helper method of the object: every caller has initialised the receiver
+	// before it calls the helper
 	fn := mu.Parent()
+	if fn.Parent() != nil || len(fn.Params) == 0 || fa.X != ssa.Value(fn.Params[0]) || (fn.Object() != nil && fn.Object().Exported()) {
+		return false
+	}
+	callers := c.P.Callers(fn)
+	if len(callers) == 0 {
+		return false
+	}
+	for _, cs := range callers {
+		args := cs.Common().Args
+		if len(args) == 0 || !c.mapInitBefore(cs.Parent(), cs, args[0], fa) {
+			return false
+		}
+	}
+	return true
+}
+
+// mapInitBefore: in function fn, before instruction at, the object recv had its map field (fa.Field) allocated by
+// one of the initialisation idioms.
+func (c *Ctx) mapInitBefore(fn *ssa.Function, at ssa.Instruction, recv ssa.Value, fa *ssa.FieldAddr) bool {
+	P := c.P
+	recvD := P.Desc(recv)
 	found := false
 	allInstrs(fn, func(b *ssa.BasicBlock, ins ssa.Instruction) {
 		call, ok := ins.(*ssa.Call)
-		if !ok || !dominates(b, mu.Block()) {
+		if !ok || !dominates(b, at.Block()) {
 			return
 		}
+		if b == at.Block() {
+			// same block: the call must come first
+			before := false
+			for _, i2 := range b.Instrs {
+				if i2 == ins {
+					before = true
+					break
+				}
+				if i2 == at {
+					break
+				}
+			}
+			if !before {
+				return
+			}
+		}
 		callee := call.Call.StaticCallee()
-		if callee == nil || !P.IsProductFunc(callee) || len(call.Call.Args) == 0 || P.Desc(call.Call.Args[0]) != P.Desc(fa.X) {
+		if callee == nil || !P.IsProductFunc(callee) || len(call.Call.Args) == 0 || len(callee.Params) == 0 || P.Desc(call.Call.Args[0]) != recvD {
 			return
 		}
 		// callee: Store MakeMap -> recv.F guarded by !recv.Flag, and Store true -> recv.Flag in the same block
@@ -1150,8 +1206,137 @@ func (c *Ctx) mapMadeByInitMethod(mu *ssa.MapUpdate) bool {
 				}
 			}
 		})
+		// second idiom: the callee makes sure the field is allocated - `if recv.F == nil { recv.F = make(...) }`
+		// on every path to each of its returns
+		if !found && c.calleeEnsuresMap(callee, fa.Field) {
+			found = true
+		}
 	})
-	return found
+	if found {
+		return true
+	}
+	// third idiom: the guard lives at the call - `if !recv.Flag { recv.reset() }` dominates the update, reset
+	// stores a fresh map into the field and sets the flag, and nothing else sets the flag
+	for _, b := range fn.Blocks {
+		ifi, ok := lastInstr(b).(*ssa.If)
+		if !ok || !dominates(b, at.Block()) || len(b.Succs) != 2 {
+			continue
+		}
+		var flag *ssa.FieldAddr
+		branch := 0
+		for bi, val := range []bool{true, false} {
+			for _, l := range literals(P.condFormula(ifi.Cond, 0), val) {
+				if l.Kind != "cond" || l.Pos || l.Val == nil {
+					continue
+				}
+				if lu, ok := l.Val.(*ssa.UnOp); ok {
+					if f2, ok := lu.X.(*ssa.FieldAddr); ok && P.Desc(f2.X) == recvD {
+						flag, branch = f2, bi
+					}
+				}
+			}
+		}
+		if flag == nil {
+			continue
+		}
+		for _, ins := range b.Succs[branch].Instrs {
+			call, ok := ins.(*ssa.Call)
+			if !ok {
+				continue
+			}
+			callee := call.Call.StaticCallee()
+			if callee == nil || !P.IsProductFunc(callee) || len(call.Call.Args) == 0 || len(callee.Params) == 0 || P.Desc(call.Call.Args[0]) != recvD {
+				continue
+			}
+			madeMap, setFlag := false, false
+			allInstrs(callee, func(cb *ssa.BasicBlock, i2 ssa.Instruction) {
+				st, ok := i2.(*ssa.Store)
+				if !ok || len(P.BlockGuards(cb)) != 0 {
+					return
+				}
+				f3, ok := st.Addr.(*ssa.FieldAddr)
+				if !ok || f3.X != ssa.Value(callee.Params[0]) {
+					return
+				}
+				if _, isMk := st.Val.(*ssa.MakeMap); isMk && f3.Field == fa.Field {
+					madeMap = true
+				}
+				if cv, isC := constBool(st.Val); isC && cv && f3.Field == flag.Field {
+					setFlag = true
+				}
+			})
+			if madeMap && setFlag && c.flagOnlySetIn(flag, callee) {
+				return true
+			}
+		}
+	}
+	return false
+}
+
+// calleeEnsuresMap: a method that, on every path to every return, leaves recv.<field> non-nil: an
+// `if recv.F == nil` whose true branch stores a fresh map into recv.F dominates all returns, and nothing in the
+// method stores anything else into the field.
+func (c *Ctx) calleeEnsuresMap(callee *ssa.Function, field int) bool {
+	if len(callee.Params) == 0 || len(callee.Blocks) == 0 {
+		return false
+	}
+	P := c.P
+	recv := callee.Params[0]
+	isField := func(v ssa.Value) bool {
+		fa, ok := v.(*ssa.FieldAddr)
+		return ok && fa.Field == field && fa.X == ssa.Value(recv)
+	}
+	okStores := true
+	var makeBlocks []*ssa.BasicBlock
+	allInstrs(callee, func(b *ssa.BasicBlock, ins ssa.Instruction) {
+		if st, ok := ins.(*ssa.Store); ok && isField(st.Addr) {
+			if _, isMk := st.Val.(*ssa.MakeMap); isMk {
+				makeBlocks = append(makeBlocks, b)
+			} else {
+				okStores = false
+			}
+		}
+	})
+	if !okStores || len(makeBlocks) == 0 {
+		return false
+	}
+	for _, b := range callee.Blocks {
+		ifi, ok := lastInstr(b).(*ssa.If)
+		if !ok {
+			continue
+		}
+		nilTest := false
+		for _, l := range literals(P.condFormula(ifi.Cond, 0), true) {
+			if nv := nilCheckedValue(l); nv != nil && l.Pos {
+				if u, ok := nv.(*ssa.UnOp); ok && isField(u.X) {
+					nilTest = true
+				}
+			}
+		}
+		if !nilTest {
+			continue
+		}
+		// the true branch makes the map
+		made := false
+		for _, mb := range makeBlocks {
+			if dominates(b.Succs[0], mb) {
+				made = true
+			}
+		}
+		if !made {
+			continue
+		}
+		all := true
+		allInstrs(callee, func(rb *ssa.BasicBlock, ins ssa.Instruction) {
+			if _, isRet := ins.(*ssa.Return); isRet && !dominates(b, rb) {
+				all = false
+			}
+		})
+		if all {
+			return true
+		}
+	}
+	return false
 }
 
 func (c *Ctx) flagOnlySetIn(flag *ssa.FieldAddr, only *ssa.Function) bool {
